@@ -1175,7 +1175,7 @@ impl<'a, R: Rec> Engine<'a, R> {
             }
             StreamMut::Extra => {
                 match fmt {
-                    Fmt::Json => {
+                    Fmt::Json | Fmt::JsonValue => {
                         if b.last() == Some(&b']') {
                             b.pop();
                             if nfields > 0 {
@@ -1189,7 +1189,7 @@ impl<'a, R: Rec> Engine<'a, R> {
                 self.fault("rd.extra_elem");
             }
             StreamMut::Missing => {
-                if let Fmt::Json = fmt {
+                if let Fmt::Json | Fmt::JsonValue = fmt {
                     if let Ok(serde_json::Value::Array(mut a)) = serde_json::from_slice::<serde_json::Value>(&b) {
                         if a.pop().is_some() {
                             b = serde_json::to_vec(&serde_json::Value::Array(a)).unwrap();
@@ -1203,7 +1203,7 @@ impl<'a, R: Rec> Engine<'a, R> {
                 }
             }
             StreamMut::WrongType(j) => {
-                if let Fmt::Json = fmt {
+                if let Fmt::Json | Fmt::JsonValue = fmt {
                     if let Ok(serde_json::Value::Array(mut a)) = serde_json::from_slice::<serde_json::Value>(&b) {
                         if !a.is_empty() {
                             let j = j as usize % a.len();
@@ -1278,7 +1278,7 @@ impl<'a, R: Rec> Engine<'a, R> {
         let kind = |ok: bool, err: bool| if ok { "ok" } else if err { "error" } else { "panic" };
         let rk = kind(matches!(real, Ok(Ok(_))), matches!(real, Ok(Err(_))));
         let mk = kind(matches!(model, Ok(Ok(_))), matches!(model, Ok(Err(_))));
-        let describe = |bytes: &Vec<u8>| alloc::harness(|| if fmt == Fmt::Json { String::from_utf8_lossy(bytes).to_string() } else { format!("{:?}", bytes) });
+        let describe = |bytes: &Vec<u8>| alloc::harness(|| if fmt != Fmt::Bincode { String::from_utf8_lossy(bytes).to_string() } else { format!("{:?}", bytes) });
         if rk != mk {
             let e = match &real {
                 Ok(Err(e)) => alloc::harness(|| e.clone()),
@@ -1744,7 +1744,7 @@ pub fn gen_ops(rng: &mut Rng, focus: Focus, faults: bool) -> Vec<Op> {
             9 => Op::Drop { r },
             10 => Op::Clone { r, panic_at: if faults && rng.chance(1, 2) { rng.range(1, 12) as u8 } else { 0 }, place: rng.below(3) as u8 },
             11 => Op::CloneFrom { dst: rng.below(8) as u8, src: r, panic_at: if faults && rng.chance(1, 2) { rng.range(1, 12) as u8 } else { 0 } },
-            12 => Op::Encode { r, fmt: if rng.chance(1, 2) { Fmt::Json } else { Fmt::Bincode }, io: gen_io(rng, faults), enc_fail_at: if faults && rng.chance(1, 4) { rng.range(1, 8) as u8 } else { 0 } },
+            12 => Op::Encode { r, fmt: *rng.pick(&[Fmt::Json, Fmt::Bincode, Fmt::JsonValue]), io: gen_io(rng, faults), enc_fail_at: if faults && rng.chance(1, 4) { rng.range(1, 8) as u8 } else { 0 } },
             13 => {
                 let mutation = if !faults {
                     StreamMut::None
@@ -1759,10 +1759,10 @@ pub fn gen_ops(rng: &mut Rng, focus: Focus, faults: bool) -> Vec<Op> {
                     }
                 };
                 let io_faults = faults && rng.chance(1, 2);
-                Op::Decode { r, fmt: if rng.chance(1, 2) { Fmt::Json } else { Fmt::Bincode }, mutation, io: gen_io(rng, io_faults), de_fail_at: if faults && rng.chance(1, 4) { rng.range(1, 8) as u8 } else { 0 }, place: rng.below(3) as u8 }
+                Op::Decode { r, fmt: *rng.pick(&[Fmt::Json, Fmt::Bincode, Fmt::JsonValue]), mutation, io: gen_io(rng, io_faults), de_fail_at: if faults && rng.chance(1, 4) { rng.range(1, 8) as u8 } else { 0 }, place: rng.below(3) as u8 }
             }
             15 => Op::CloneSweep { r, from: rng.chance(1, 2) },
-            16 => Op::DecodeSweep { r, fmt: if rng.chance(1, 2) { Fmt::Json } else { Fmt::Bincode }, kind: rng.below(4) as u8 },
+            16 => Op::DecodeSweep { r, fmt: *rng.pick(&[Fmt::Json, Fmt::Bincode, Fmt::JsonValue]), kind: rng.below(4) as u8 },
             _ => {
                 let n = rng.below(7) as u8;
                 let fault_at = if faults && n > 0 && rng.chance(2, 3) { Some(rng.below(n as usize)) } else { None };
